@@ -31,7 +31,7 @@ def main():
     verif_commit = sh(["git", "-C", V, "rev-parse", "--short", "HEAD"])[1].strip()
     for pid in sys.argv[1:]:
         seen = {}
-        for d in sorted(glob.glob(os.path.join(V, "seeded", pid + "-*"))):
+        for d in sorted(glob.glob(os.path.join(V, "seeded", pid + "-" + os.environ.get("RECHECK_ONLY", "") + "*"))):   # RECHECK_ONLY=r5: only that round
             mp, pp = os.path.join(d, "meta.json"), os.path.join(d, "patch.diff")
             if not (os.path.isfile(mp) and os.path.isfile(pp)):
                 continue
